@@ -171,6 +171,16 @@ class _FuncInline(SiteRewriter):
 
         # merge free variables
         for name in ast.free_vars:
+            # a local of the caller with the callee's free name would capture it:
+            # the spliced body reads the name where the callee read its global
+            if any(
+                not (isinstance(d, AssignDef) and d.is_free)
+                for d in self.def_use.name_to_defs.get(name, ())
+            ):
+                raise RuntimeError(
+                    f'cannot inline function `{e.fn.name}` due to conflicting free variable `{name}`: '
+                    'the caller binds a local of that name'
+                )
             if str(name) in self.env:
                 # already in the environment, check that it is the same
                 val = self.env.get(str(name))
